@@ -117,9 +117,10 @@ class _GaussianGammaPair(_ConjugatePair):
     def sample(self):
         # Extract variables
         b = self.target.likelihood.data                                 # mu
-        m = len(b)                                                      # n
+        unit_dist = self.target.likelihood.distribution(np.array([1]))  # Gaussian with unit conjugate parameter
+        m = unit_dist.rank                                              # n (rank of the precision, equals len(b) unless the Gaussian is improper)
         Ax = self.target.likelihood.distribution.mean                   # x_i
-        L = self.target.likelihood.distribution(np.array([1])).sqrtprec # L
+        L = unit_dist.sqrtprec                                          # L
         alpha = self.target.prior.shape                                 # alpha
         beta = self.target.prior.rate                                   # beta
 
